@@ -280,6 +280,99 @@ class DebugInfo:
             return (s.file_of_scope(ref), int(line) if line else 0)
         return (None, 0)
 
+# ---------------------------------------------------------------- which pointer parameters may a function write through?
+class ParamWrites:
+    """Conservative interprocedural fact on the IR: index k is in writes(f) if a pointer derived from parameter k of f may be
+    stored through, escapes (stored as a value, returned, converted to an integer) or is handed to a callee that may do so.
+    Used only to keep the automatically generated loop frames small (a slot whose address is merely read by a callee is not
+    havocked); an omission would make DFCC's frame check fail, never a proof pass."""
+    VAL = r'(%"[^"]*"|%[-a-zA-Z$._0-9]+)'
+    def __init__(s, m, opaque):
+        s.m = m; s.opaque = opaque; s.memo = {}; s.active = set()
+    def writes(s, f):
+        if f in s.memo: return s.memo[f]
+        fn = s.m.funcs.get(f)
+        if fn is None or f in s.opaque: return None          # unknown body: may write through everything
+        if f in s.active: return set()                       # recursion: optimistic, callers of the cycle head re-check
+        s.active.add(f)
+        try:
+            r = s.compute(fn)
+        finally:
+            s.active.discard(f)
+        s.memo[f] = r
+        return r
+    def compute(s, fn):
+        der = {}                      # value -> set of param indices
+        for i, (t, n) in enumerate(fn.params):
+            if isinstance(t, PtrTy): der[n] = {i}
+        addr_of = {}                  # alloca that holds a copy of the param pointer -> indices
+        out = set()
+        ins = [st for b in fn.blocks.values() for st in b]
+        changed = True; rounds = 0
+        while changed and rounds < 6:
+            changed = False; rounds += 1
+            for st in ins:
+                mm = re.match(r'^' + s.VAL + r' = (\w+) (.*)$', st)
+                res, op, rest = (mm.group(1), mm.group(2), mm.group(3)) if mm else (None, st.split(' ', 1)[0], st)
+                used = [v for v in re.findall(s.VAL, rest if mm else st) if v in der]
+                if op == 'store':
+                    m2 = re.match(r'^store (?:atomic |volatile )*(.+?) ' + s.VAL + r', (.+?)\* ' + s.VAL + r'(?:,|$)', st)
+                    if m2:
+                        val, dst = m2.group(2), m2.group(4)
+                        if dst in der: out |= der[dst]
+                        if val in der:
+                            if re.fullmatch(r'%[-a-zA-Z$._0-9]+\.addr|%"[^"]*\.addr"', dst) or dst in addr_of:
+                                if addr_of.get(dst, set()) != addr_of.get(dst, set()) | der[val]:
+                                    addr_of[dst] = addr_of.get(dst, set()) | der[val]; changed = True
+                            else: out |= der[val]
+                    continue
+                if res is None and op not in ('call', 'invoke', 'tail', 'ret'): continue
+                if op == 'load':
+                    m2 = re.search(r', .+?\* ' + s.VAL, rest)
+                    if m2 and m2.group(1) in addr_of:
+                        if der.get(res, set()) != der.get(res, set()) | addr_of[m2.group(1)]:
+                            der[res] = der.get(res, set()) | addr_of[m2.group(1)]; changed = True
+                    continue
+                if op in ('getelementptr', 'bitcast', 'phi', 'select'):
+                    if op == 'getelementptr':
+                        m2 = re.search(r'\* ' + s.VAL, rest); used = [m2.group(1)] if m2 and m2.group(1) in der else []
+                    if used:
+                        u = set().union(*[der[v] for v in used])
+                        if der.get(res, set()) != der.get(res, set()) | u: der[res] = der.get(res, set()) | u; changed = True
+                    continue
+                if op in ('ptrtoint', 'ret'):
+                    for v in used: out |= der[v]
+                    continue
+                if op in ('call', 'invoke', 'tail', 'musttail', 'notail') or (res and op in ('call', 'invoke')):
+                    m2 = re.search(r'(@"[^"]*"|@[-a-zA-Z$._0-9]+)\((.*)\)', st)
+                    if not m2:
+                        for v in used: out |= der[v]
+                        continue
+                    callee = m2.group(1); args = s.split_args(m2.group(2))
+                    cn = callee[1:]
+                    if cn.startswith(('llvm.dbg', 'llvm.lifetime')): continue
+                    cw = None
+                    if cn.startswith(('llvm.memcpy', 'llvm.memmove', 'llvm.memset')): cw = {0}
+                    else: cw = s.writes(callee)
+                    for k, a in enumerate(args):
+                        vs = [v for v in re.findall(s.VAL, a) if v in der]
+                        if vs and (cw is None or k in cw):
+                            for v in vs: out |= der[v]
+                    continue
+                # anything else that mentions a derived pointer: treat as escape
+                if op not in ('icmp',):
+                    for v in used: out |= der[v]
+        return out
+    def split_args(s, txt):
+        out = []; depth = 0; cur = ''
+        for ch in txt:
+            if ch in '([{<': depth += 1
+            elif ch in ')]}>': depth -= 1
+            if ch == ',' and depth == 0: out.append(cur); cur = ''
+            else: cur += ch
+        if cur.strip(): out.append(cur)
+        return out
+
 # ---------------------------------------------------------------- C emission
 def san(name):
     n = name[1:] if name[0] in '%@' else name
@@ -809,9 +902,16 @@ class FnTranslator:
                 die("indirect call in %s: %s" % (s.fn.name, st[:120]))
             p.expect('(')
             args = []
+            cn_ = callee[1:]
+            if cn_.startswith(('llvm.memcpy', 'llvm.memmove', 'llvm.memset')): cw = {0}
+            elif s.opts.get('_pw') is not None: cw = s.opts['_pw'].writes(callee)
+            else: cw = None
             if not p.accept(')'):
                 while True:
-                    at = p.type(); skip_attrs(p); args.append(s.value(p, at))
+                    at = p.type(); skip_attrs(p)
+                    k_arg = len(args)
+                    s.nomention = (cw is not None and k_arg not in cw)
+                    args.append(s.value(p, at)); s.nomention = False
                     if p.accept(')'): break
                     p.expect(',')
             call = s.call(callee, args, rty)
@@ -954,6 +1054,9 @@ def translate(path, cfg):
     m = parse_module(path)
     dbg = DebugInfo(m.meta)
     em = Emitter(m)
+    # callees whose body the proofs do not see (stubs, library functions off the verbatim list) may write through any pointer
+    opaque = set(stubs) | set(f for f in m.funcs if STD_RE.search(f) and not any(v.search(f) for v in verb))
+    opts['_pw'] = ParamWrites(m, opaque)
     todo = list(reversed(roots)); done = collections.OrderedDict()
     protos = collections.OrderedDict()
     all_globals = set()
